@@ -59,7 +59,7 @@ func (cu *cursor) reenter() {
 		if cu.name == "BinaryHeap" || cu.name == "PriorityQueue" {
 			return // (the heap's Values() is quadratic in the level width)
 		}
-		every = 61
+		every = cu.n + 7 // about once per full pass (String() of a big tree costs megabytes of copying)
 	}
 	if cu.reent && cu.others != nil && cu.pcalls%every == 1 {
 		cu.others()
